@@ -39,8 +39,9 @@ impl World {
         let mode = ModeS { kind: Some(cfg.mode), psk: cfg.psk.0.clone(), psk_id: cfg.psk_id.0.clone(), sk_s, pk_s };
         let mut rng = ScriptRng::new(script);
         // A: the single-shot form
+        let mut ss_buf = pt.to_vec();
         let a: Res<(Vec<u8>, Vec<u8>)> = if inplace {
-            su.ss_seal_in_place(&mode, &pk_r, &cfg.info, pt, aad, &mut rng).map(|(enc, mut ct, tag)| {
+            su.ss_seal_in_place(&mode, &pk_r, &cfg.info, &mut ss_buf, aad, &mut rng).map(|(enc, mut ct, tag)| {
                 ct.extend_from_slice(&tag);
                 (enc, ct)
             })
@@ -51,12 +52,23 @@ impl World {
         cov.hit(&format!("single_shot_seal.{}.{}", if inplace { "inplace" } else { "alloc" }, out_class_s(&a)));
         cov.sig_event("SingleShotSeal", &out_class_s(&a));
         // B: the composed form. First only its setup, to learn the exact error it gives, if any
-        let b_setup: Result<(), Fail> = {
-            let mut rng_b = ScriptRng::new(script);
-            su.setup_sender(&mode, &pk_r, &cfg.info, &mut rng_b).map(|_| ())
-        };
+        let mut rng_b = ScriptRng::new(script);
+        let b_setup: Result<(), Fail> = su.setup_sender(&mode, &pk_r, &cfg.info, &mut rng_b).map(|_| ());
+        // "with the same randomness": both forms take exactly the same bytes from the caller's RNG,
+        // whether they succeed or fail (the caller's next draw depends on it)
+        if !matches!(a, Err(Fail::Panic(_)) | Err(Fail::Decode(..))) && !matches!(b_setup, Err(Fail::Panic(_)) | Err(Fail::Decode(..))) && rng.total_bytes() != rng_b.total_bytes() {
+            return Err(self.viol(
+                "single-shot.seal.rng-draws-equal-composed",
+                format!("{} bytes drawn from the caller's RNG, as setup_sender draws ({})", rng_b.total_bytes(), out_class_s(&b_setup)),
+                format!("{} bytes: {:?} ({})", rng.total_bytes(), rng.draws, out_class_s(&a)),
+            ));
+        }
         if let Err(fb) = &b_setup {
-            // setup_sender fails: the single-shot form must fail in exactly the same way
+            // setup_sender fails: the single-shot form must fail in exactly the same way, and - as in
+            // the composed form, where sealing is never reached - leave the caller's message alone
+            if inplace && matches!(fb, Fail::Hpke(_)) && ss_buf != pt {
+                return Err(self.viol("single-shot.seal.buffer-untouched-when-setup-fails", format!("message buffer unchanged ({}): the composed form fails in setup_sender and never touches it", short_hex(pt)), short_hex(&ss_buf)));
+            }
             match &a {
                 Err(fa) if fa == fb => {}
                 other => {
@@ -341,6 +353,9 @@ impl World {
         if after[3].0 - before[3].0 < 1 {
             return Err(self.viol("drop.not-run", format!("{}: dropping the SharedSecret wipes it", what), "no drop recorded".into()));
         }
+        if scan.heap_hits & 1 != 0 {
+            return Err(self.viol("drop.shared_secret-left-in-freed-heap-memory", format!("{}: no heap block freed by dropping the SharedSecret still holds it", what), "found in a block at the moment it was freed".into()));
+        }
         if !scan.observed(0) {
             cov.hit("teardown.unobservable.shared_secret");
             return Ok(());
@@ -423,8 +438,18 @@ impl World {
                     other => return Err(self.viol("codec.right-length", "Ok (or ValidationError for an invalid NIST key)".into(), res_s(other))),
                 }
             }
+            P::C13 => {
+                // "malformed data yields errors": bytes of the wrong length are malformed for every
+                // decodable type, so a value coming back is not an error
+                if bytes.len() != rfc_size {
+                    if let Ok(re) = &r {
+                        return Err(self.viol("decode.malformed-yields-error", format!("an HpkeError for {} bytes where {:?} takes {}", bytes.len(), kind, rfc_size), format!("Ok({})", short_hex(re))));
+                    }
+                    cov.hit("c13.wrong_length_is_an_error");
+                }
+            }
             _ => {
-                // C13 and others: value or HpkeError, nothing else
+                // others: value or HpkeError, nothing else
                 if let Err(Fail::Decode(..)) = &r {
                     unreachable!();
                 }
@@ -491,6 +516,143 @@ impl World {
         }
     }
 
+    pub fn ev_huge_alloc(&mut self, c: usize, pt_len: u64, aad_len: u64, cov: &mut Cov) -> V {
+        const CAP: u64 = (1 << 32) + 64;
+        let (pt_len, aad_len) = (pt_len.min(CAP) as usize, aad_len.min(CAP) as usize);
+        let ok = {
+            let sc = self.scs.get(c).and_then(|x| x.as_ref());
+            let rc = self.rcs.get(c).and_then(|x| x.as_ref());
+            match (sc, rc) {
+                (Some(s), Some(r)) => s.real.is_some() && r.real.is_some() && s.ident == r.ident && s.m_seq == r.m_seq && !s.m_over && !r.m_over && s.cfg.suite.aead.seals() && !s.cfg.suite.shim,
+                _ => false,
+            }
+        };
+        if !ok {
+            return Ok(());
+        }
+        let mut pt = vec![0x5Au8; pt_len];
+        if pt_len >= 8 {
+            pt[..8].copy_from_slice(b"hugemsg!");
+        }
+        let aad = vec![0xA7u8; aad_len];
+        let nt = {
+            let sc = self.scs[c].as_ref().unwrap();
+            super::world_ops::nt_pub(&sc.cfg)
+        };
+        let ct = {
+            let sc = self.scs[c].as_mut().unwrap();
+            match sc.real.as_mut().unwrap().seal(&pt, &aad) {
+                Ok(ct) => {
+                    Self::model_advance(&mut sc.m_seq, &mut sc.m_over);
+                    ct
+                }
+                Err(f) => return Err(self.viol("huge.seal", format!("Ok: a message of {} bytes with {} bytes of aad is legal", pt_len, aad_len), format!("Err({})", short(&f)))),
+            }
+        };
+        if ct.len() != pt_len + nt {
+            return Err(self.viol("huge.ct-length", format!("{}", pt_len + nt), format!("{}", ct.len())));
+        }
+        let opened = {
+            let rc = self.rcs[c].as_mut().unwrap();
+            let r = rc.real.as_mut().unwrap().open(&ct, &aad);
+            if r.is_ok() {
+                Self::model_advance(&mut rc.m_seq, &mut rc.m_over);
+            }
+            r
+        };
+        cov.ops += 2;
+        cov.hit("probe.huge_allocating_seal_open");
+        cov.sig_event("HugeAlloc", &format!("{}/{}", pt_len.leading_zeros(), aad_len.leading_zeros()));
+        match opened {
+            Ok(got) if got == pt => {}
+            Ok(_) => return Err(self.viol("huge.plaintext", "the plaintext that was sealed".into(), "different bytes".into())),
+            Err(f) => return Err(self.viol("huge.open", format!("Ok: the next in-sequence message ({} bytes, aad {} bytes) opens", pt_len, aad_len), format!("Err({})", short(&f)))),
+        }
+        let (ms, mo) = { let sc = self.scs[c].as_ref().unwrap(); (sc.m_seq, sc.m_over) };
+        let got_s = self.scs[c].as_ref().unwrap().real.as_ref().unwrap().seq_state();
+        let got_r = self.rcs[c].as_ref().unwrap().real.as_ref().unwrap().seq_state();
+        if got_s != (ms, mo) || got_r != (ms, mo) {
+            return Err(self.viol("huge.counter-law", format!("sender and receiver at position {:?}", (ms, mo)), format!("sender {:?}, receiver {:?}", got_s, got_r)));
+        }
+        Ok(())
+    }
+
+    pub fn ev_huge_field_probe(&mut self, sid: SuiteId, field: u8, pad: u64, cov: &mut Cov) -> V {
+        const CAP: u64 = (1 << 32) + (1 << 20);
+        let pad = pad.min(CAP) as usize;
+        if !sid.aead.seals() {
+            return Ok(());
+        }
+        let su = suite(sid);
+        let kem = sid.kem;
+        let (sk_r, pk_r, _) = refhpke::derive_keypair(kem, b"huge field probe recipient");
+        let mut long = vec![0u8; 8 + pad];
+        long[..8].copy_from_slice(b"session1");
+        // what a 32-bit length would keep of it, and the string with its last byte changed
+        let short_len = (long.len() as u64 % (1u64 << 32)) as usize;
+        let fixed = b"fixed value".to_vec();
+        let mk = |v: &[u8]| -> (Vec<u8>, Vec<u8>, Vec<u8>) {
+            // (info, psk, psk_id)
+            match field {
+                0 => (v.to_vec(), fixed.clone(), fixed.clone()),
+                1 => (fixed.clone(), fixed.clone(), v.to_vec()),
+                _ => (fixed.clone(), v.to_vec(), fixed.clone()),
+            }
+        };
+        let kind = ModeKind::Psk;
+        let (info, psk, psk_id) = mk(&long);
+        let mode_s = ModeS { kind: Some(kind), psk: psk.clone(), psk_id: psk_id.clone(), sk_s: vec![], pk_s: vec![] };
+        let mut rng = ScriptRng::new(&[0x21u8; 66]);
+        let (enc, mut s) = match su.setup_sender(&mode_s, &pk_r, &info, &mut rng) {
+            Ok(x) => x,
+            Err(f) => return Err(self.viol("huge-field.setup_s", "Ok".into(), short(&f))),
+        };
+        let ct = match s.seal(b"payload", b"") {
+            Ok(c) => c,
+            Err(f) => return Err(self.viol("huge-field.seal", "Ok".into(), short(&f))),
+        };
+        let se = s.export(b"x", 32).ok();
+        // matching receiver
+        let mode_r = ModeR { kind: Some(kind), psk, psk_id, pk_s: vec![] };
+        match su.setup_receiver(&mode_r, &sk_r, &enc, &info) {
+            Ok(mut r) => {
+                if r.open(&ct, b"").ok().as_deref() != Some(&b"payload"[..]) {
+                    return Err(self.viol("huge-field.round-trip", "the receiver with the same strings opens the message".into(), "it does not".into()));
+                }
+            }
+            Err(f) => return Err(self.viol("huge-field.setup_r", "Ok".into(), short(&f))),
+        }
+        cov.ops += 4;
+        drop(info);
+        // mismatching receivers
+        let mut variants: Vec<(&str, Vec<u8>)> = vec![("only the first (length mod 2^32) bytes", long[..short_len].to_vec())];
+        {
+            let l = long.len();
+            long[l - 1] ^= 1;
+        }
+        variants.push(("the last byte changed", std::mem::take(&mut long)));
+        for (what, v) in variants {
+            let (info, psk, psk_id) = mk(&v);
+            drop(v);
+            let mode_r = ModeR { kind: Some(kind), psk, psk_id, pk_s: vec![] };
+            if let Ok(mut r) = su.setup_receiver(&mode_r, &sk_r, &enc, &info) {
+                cov.ops += 1;
+                let opened = r.open(&ct, b"").is_ok();
+                let same_export = r.export(b"x", 32).ok() == se && se.is_some();
+                if opened || same_export {
+                    return Err(self.viol(
+                        "huge-field.mismatch-accepted",
+                        format!("a receiver whose {} has {} gets a different context", ["info", "psk_id", "psk"][field.min(2) as usize], what),
+                        format!("opened the message: {}, same exporter output: {}", opened, same_export),
+                    ));
+                }
+            }
+        }
+        cov.hit("probe.config_string_longer_than_2^32");
+        cov.sig_event("HugeField", &format!("{}", field));
+        Ok(())
+    }
+
     pub fn ev_seal_crafted(&mut self, c: usize, craft: Craft, len: usize, aad: &[u8], inplace: bool, cov: &mut Cov) -> V {
         let pt = {
             let sc = match self.scs.get(c).and_then(|x| x.as_ref()) {
@@ -526,6 +688,14 @@ impl World {
     // ------------------------------------------------------------------------------ dispatcher
 
     pub fn apply(&mut self, ev: &Ev, cov: &mut Cov) -> V {
+        // key objects decoded while this world acts belong to it (and are reused by its later calls)
+        let prev = crate::suites::set_key_scope(self.id);
+        let r = self.apply_inner(ev, cov);
+        crate::suites::set_key_scope(prev);
+        r
+    }
+
+    fn apply_inner(&mut self, ev: &Ev, cov: &mut Cov) -> V {
         cov.events += 1;
         match ev {
             Ev::Keygen { k, kem, ikm } => self.ev_keygen(*k, *kem, ikm, cov),
@@ -536,12 +706,54 @@ impl World {
             Ev::Seal { c, pt, aad, inplace } => self.ev_seal(*c, pt, aad, *inplace, cov),
             Ev::SealMany { c, n, len, inplace } => self.ev_seal_many(*c, *n, *len, *inplace, cov),
             Ev::FailNextSeal { c } => self.ev_fail_next(*c),
+            Ev::FailNextOpen { r } => {
+                if let Some(rc) = self.rcs.get_mut(*r).and_then(|x| x.as_mut()) {
+                    if rc.cfg.suite.shim && rc.real.is_some() && rc.twin.is_none() && !rc.m_over {
+                        rc.fail_open_armed = true;
+                    }
+                }
+                Ok(())
+            }
             Ev::Deliver { r, from, rec, fault, api } => self.ev_deliver(*r, *from, *rec, fault, *api, cov),
             Ev::Pump { r, from, n, len, inplace_s, inplace_r } => self.ev_pump(*r, *from, *n, *len, *inplace_s, *inplace_r, cov),
             Ev::TamperSweep { r, from, rec, api, max_bits, only } => self.ev_tamper_sweep(*r, *from, *rec, *api, *max_bits, *only, cov),
             Ev::Export { c, role, ctx, len } => self.ev_export(*c, *role, ctx, *len, cov),
             Ev::ExportCmp { s, r, ctx, len } => self.ev_export_cmp(*s, *r, ctx, *len, cov),
             Ev::Jump { c, role, to } => self.ev_jump(*c, *role, *to, cov),
+            Ev::JumpNonceXor { c, role, pat } => {
+                let base = match role {
+                    Role::S => self.scs.get(*c).and_then(|x| x.as_ref()).and_then(|s| s.refc.as_ref()).map(|r| r.base_nonce.clone()),
+                    Role::R => self.rcs.get(*c).and_then(|x| x.as_ref()).and_then(|s| s.refc.as_ref()).map(|r| r.base_nonce.clone()),
+                };
+                match base {
+                    Some(bn) if bn.len() >= 8 => {
+                        let mut w = [0u8; 8];
+                        w.copy_from_slice(&bn[bn.len() - 8..]);
+                        cov.hit("fault.seq_jump_nonce_pattern");
+                        self.ev_jump(*c, *role, u64::from_be_bytes(w) ^ *pat, cov)
+                    }
+                    _ => Ok(()),
+                }
+            }
+            Ev::JumpNonceRel { c, role, keep_top, low } => {
+                let base = match role {
+                    Role::S => self.scs.get(*c).and_then(|x| x.as_ref()).and_then(|s| s.refc.as_ref()).map(|r| r.base_nonce.clone()),
+                    Role::R => self.rcs.get(*c).and_then(|x| x.as_ref()).and_then(|s| s.refc.as_ref()).map(|r| r.base_nonce.clone()),
+                };
+                match base {
+                    Some(bn) if bn.len() >= 8 => {
+                        let mut w = [0u8; 8];
+                        w.copy_from_slice(&bn[bn.len() - 8..]);
+                        let b64 = u64::from_be_bytes(w);
+                        let k = (*keep_top).min(8) as u32;
+                        let mask = if k >= 8 { u64::MAX } else if k == 0 { 0 } else { u64::MAX << (64 - 8 * k) };
+                        let to = (b64 & mask) | (*low & !mask);
+                        cov.hit("fault.seq_jump_nonce_relative");
+                        self.ev_jump(*c, *role, to, cov)
+                    }
+                    _ => Ok(()),
+                }
+            }
             Ev::Teardown { c, role } => self.ev_teardown(*c, *role, cov),
             Ev::SingleShotSeal { c, cfg, kr, ks, ks_pub, rng, pt, aad, inplace } => self.ev_single_shot_seal(*c, cfg, *kr, *ks, *ks_pub, rng, pt, aad, *inplace, cov),
             Ev::DeriveProbe { kem, ikm } => self.ev_derive_probe(*kem, ikm, cov),
@@ -551,10 +763,12 @@ impl World {
             Ev::WriteExactProbe { suite, kind, bytes, buflen } => self.ev_write_exact_probe(*suite, *kind, bytes, *buflen, cov),
             Ev::PskProbe { psk, psk_id } => self.ev_psk_probe(psk, psk_id, cov),
             Ev::PskLenProbe { psk_len, id_len } => self.ev_psk_len_probe(*psk_len, *id_len, cov),
+            Ev::HugeAlloc { c, pt_len, aad_len } => self.ev_huge_alloc(*c, *pt_len, *aad_len, cov),
+            Ev::HugeFieldProbe { suite, field, pad } => self.ev_huge_field_probe(*suite, *field, *pad, cov),
             Ev::SealCrafted { c, craft, len, aad, inplace } => self.ev_seal_crafted(*c, *craft, *len, aad, *inplace, cov),
             Ev::RawOpen { r, ct, aad, tag } => self.ev_raw_open(*r, ct, aad, tag.as_ref().map(|t| &t.0[..]), cov),
-            Ev::On { inner, .. } => self.apply(inner, cov),
-            Ev::OnNested { inner, .. } => self.apply(inner, cov),
+            Ev::On { inner, .. } => self.apply_inner(inner, cov),
+            Ev::OnNested { inner, .. } => self.apply_inner(inner, cov),
             Ev::RejectBurst { r, from, n } => self.ev_reject_burst(*r, *from, *n, cov),
             Ev::VolumePump { c, n, len } => self.ev_volume_pump(*c, *n, *len, cov),
             Ev::ExportBurst { c, role, n, len } => {
@@ -591,6 +805,12 @@ pub fn execute(case: &Case, cov: &mut Cov) -> Option<Violation> {
     let p = P::parse(&case.property).expect("unknown property in case");
     if p == P::C18 {
         return crate::c18::execute_c18(case, cov);
+    }
+    // One run in eight executes with its world hopping between OS threads (contexts, keys and tags are
+    // Send: creating a context on one thread and using it on another is ordinary use). Which thread
+    // executes event i is a function of i, so the run replays; exactly one thread runs at a time.
+    if case.run_seed % 8 == 3 && case.events.len() >= 2 {
+        return crate::c18::execute_hopping(case, p, cov);
     }
     let mut w = World::new(p);
     for (i, ev) in case.events.iter().enumerate() {
